@@ -1307,6 +1307,8 @@ PAIR_FAMILIES = [
     ("checks::unused_vars::UnusedVariableVisitor::push_scope", "checks::unused_vars::UnusedVariableVisitor::pop_scope",
      "the scope stack of the unused-variable check: `pop_scope().expect(..)`, `add_binding .. expect(\"Should always be non-empty\")` and the "
      "lookups in mark_used rely on every pop having its push in the same function"),
+    ("field:function_stack:push", "field:function_stack:pop",
+     "the function-context stack of the recursion-variable check: `function_stack.pop().unwrap()` relies on the push made earlier in the same call"),
     ("checks::type_checker::LocalBindings::enter_block", "checks::type_checker::LocalBindings::exit_block",
      "the block stack of the type checker's local bindings: `LocalBindings::set .. expect(\"Should be non-empty\")` relies on balanced enter/exit"),
 ]
@@ -1317,11 +1319,24 @@ def paired_calls(P, res, label="PAIRED-CALLS"):
     closes nothing it did not open. Conditional open/close pairs are accepted when both sit under the same enum arm."""
     n = 0
     for push_fn, pop_fn, why in PAIR_FAMILIES:
-        if push_fn not in P.funcs or pop_fn not in P.funcs:
-            raise M.MissingAnchor("%s / %s" % (push_fn, pop_fn))
+        def matcher(spec):
+            if spec.startswith("field:"):
+                _, fld, op = spec.split(":")
+
+                def m(f, t):
+                    n_ = M.callee_name(t) or ""
+                    if not n_.endswith("Vec::<T, A>::" + op) or not t["args"]:
+                        return False
+                    r_ = f.root_of(t["args"][0], through_named=True)
+                    return r_[0] == "place" and f.field_path(r_[1])[-1:] == [fld]
+                return m
+            if spec not in P.funcs:
+                raise M.MissingAnchor(spec)
+            return lambda f, t: M.callee_name(t) == spec
+        is_push, is_pop = matcher(push_fn), matcher(pop_fn)
         for p_, f in sorted(P.funcs.items()):
-            pu = [bi for bi, t in f.calls() if M.callee_name(t) == push_fn]
-            po = [bi for bi, t in f.calls() if M.callee_name(t) == pop_fn]
+            pu = [bi for bi, t in f.calls() if is_push(f, t)]
+            po = [bi for bi, t in f.calls() if is_pop(f, t)]
             if not pu and not po:
                 continue
             n += 1
@@ -1382,4 +1397,4 @@ def paired_calls(P, res, label="PAIRED-CALLS"):
                 res.bad(label, key + " # unbalanced", "%s: %s (%s)" % (p_, "; ".join(problems), why), f.loc())
             else:
                 res.ok(label, key + ": %d open / %d close, balanced on every path" % (len(pu), len(po)))
-    res.floor(label, "functions that open or close a checked scope", n, 14)
+    res.floor(label, "functions that open or close a checked scope", n, 15)
